@@ -351,15 +351,23 @@ func c11r5(c *Ctx, id string) {
 		}
 		n++
 		d := w.Origin(cc.Args[0])
-		isDyn := guardedBy(in.Block(), true, func(v ssa.Value) bool {
-			return strings.HasSuffix(w.Origin(v), ".Membership.Type == const(\"dynamic\"))")
-		})
+		// under which membership type: `== "dynamic"` or `!= "dynamic"`, either branch
+		dynKnown, dyn := false, false
+		for _, g := range guardsOf(in.Block()) {
+			v, pol := stripNot(g.Cond, g.Branch)
+			o := w.Origin(v)
+			switch {
+			case strings.HasSuffix(o, ".Membership.Type == const(\"dynamic\"))"):
+				dynKnown, dyn = true, pol
+			case strings.HasSuffix(o, ".Membership.Type != const(\"dynamic\"))"):
+				dynKnown, dyn = true, !pol
+			}
+		}
+		isDyn := dynKnown && dyn
 		if isDyn {
 			c.Check(d == "const(0)", id, "delay:dynamic", in.Pos(), "dynamic membership reopens immediately", "dynamic membership reopens after "+d)
 		} else {
-			notDyn := guardedBy(in.Block(), false, func(v ssa.Value) bool {
-				return strings.HasSuffix(w.Origin(v), ".Membership.Type == const(\"dynamic\"))")
-			})
+			notDyn := dynKnown && !dyn
 			c.Check(notDyn && strings.HasSuffix(d, ".Membership.RebalanceDelay"), id, "delay:configured", in.Pos(), "other memberships reopen after RebalanceDelay", "non-dynamic membership reopens after "+d)
 		}
 	})
